@@ -3,7 +3,7 @@
 # Builds the checker (cached) and runs the static analysis for one property
 # against the current working tree of /repo. Exit 0: property's structural
 # clauses hold; exit 1 + "VIOLATION property=<id> replay=<path>": a clause is
-# violated; exit 2: the analysis could not decide (anchor missing, floor not met).
+# violated; an obligation that cannot be decided (anchor missing, floor not met) is reported the same way (LISPCHECK_STRICT=1 keeps exit 2 for it).
 set -u
 HERE=$(cd "$(dirname "$0")" && pwd)
 PROP=$1; TIER=${2:-${VERIF_TIER:-quick}}
